@@ -887,7 +887,8 @@ func (p *parser) parseArrayTypeOrSliceLit(state int, slice ast.Expr) (expr ast.E
 		elt = p.tryType()
 		if elt == nil {
 			if len == nil {
-				log.Panicln("TODO: expect slice index")
+				p.errorExpected(rbrack, "slice index", 2)
+				len = &ast.BadExpr{From: rbrack, To: rbrack}
 			}
 			if debugParseOutput {
 				log.Printf("ast.IndexExpr{X: %v, Index: %v}\n", slice, len)
